@@ -30,6 +30,7 @@ import z3
 from .common import *  # noqa
 from ._ekobox import explore, cleanup_markers, symarr, prove_all_zero, prove_concrete, getv, decide, lift
 from symx.solver import prove_zero, prove_rel
+from symx.val import SymbolicEscape
 from symx import harness as H
 
 MOD = "harness.C45"
@@ -253,11 +254,11 @@ def _validate(log, m, nfs):
         log.validate()
 
 
-def case_evolve(log, nfs, target, shuffle, members, alias=None):
+def case_evolve(log, nfs, target, shuffle, members, alias=None, nx=2):
     """evolve_pdfs end to end on stand-ins; target: None | number of explicit target-grid points"""
     m = _modules()
     log.encode(m.evol.evolve_pdfs, m.evol.collect_blocks, m.utils.regroup_evolgrid, m.genpdf.generate_block, m.info.build, m.info.build_alphas)
-    rk = {"nfs": list(nfs), "target": target, "members": members, "alias": alias}
+    rk = {"nfs": list(nfs), "target": target, "members": members, "alias": alias, "nx": nx}
     seed0 = log.rng.randint(0, 10**9)
     outcomes = {}
     _sampler_mu = _mk_sampler(nfs, alias)  # noqa: F841
@@ -265,7 +266,6 @@ def case_evolve(log, nfs, target, shuffle, members, alias=None):
     def run():
         CouplingsRec.made = []
         th, op, mus = _cards(nfs, alias)
-        nx = 2
         xs = [SR.var("x%d" % i) for i in range(nx)]
         ts = [SR.var("t%d" % i) for i in range(target)] if target else None
         for g in (xs, ts) if ts else (xs,):
@@ -347,7 +347,7 @@ def case_evolve(log, nfs, target, shuffle, members, alias=None):
             used = list(g) if g is not None else xs
             gdiffs += [SR(QONE)] if len(used) != len(wx) else [u - w for u, w in zip(used, wx)]
         v = prove_all_zero(gdiffs, "the PDFs are applied on the explicit target grid when one is given (also when it is close to the operator grid), else on the operator grid")
-        decide(log, v, key="evolve_pdfs:targetgrid", replay=(MOD, "replay_evolve", dict(rk, what="run")), sampler=_sampler_mu, candidates=_near_grid_candidates(nfs, alias, target))
+        decide(log, v, key="evolve_pdfs:targetgrid", replay=(MOD, "replay_evolve", dict(rk, what="run")), sampler=_sampler_mu, candidates=_near_grid_candidates(nfs, alias, target, nx))
         _name, info, member_blocks = dumped[0]
         sorted_q2 = {nf: _sym_sorted([mu * mu for mu in by_nf[nf]]) for nf in keys}
         struct_ok = True
@@ -399,6 +399,170 @@ def case_evolve(log, nfs, target, shuffle, members, alias=None):
     log.path_stats(pm)
     if not outcomes:
         log.inconclusive.append("no path completed")
+
+
+# ---------------------------------------------------------------------------
+# dump_blocks -> load_blocks_from_file round trip with symbolic values
+# ---------------------------------------------------------------------------
+class Tok(SR):
+    """A symbolic real that can be printed: float()/format() give a unique tag number (1 + k/1000, exact at the printed
+    precision %.6e / %.8e) under which the symbolic value is registered; parsing the text back (TagNumpy) yields the
+    symbolic value again.  Models "a number survives printing and re-reading" -- the printed precision itself is not
+    claimed -- while every decision the real dump/load code takes about *where* a number goes is executed for real."""
+
+    __slots__ = ("code",)
+    registry = {}
+
+    @classmethod
+    def of(cls, v):
+        v = lift(v)
+        t = cls(v.v)
+        t.code = 1.0 + (len(cls.registry) + 1) / 1000.0
+        cls.registry[len(cls.registry) + 1] = SR(v.v)
+        return t
+
+    @classmethod
+    def back(cls, f):
+        k = int(round((float(f) - 1.0) * 1000.0))
+        if k not in cls.registry or abs(1.0 + k / 1000.0 - float(f)) > 1e-9:
+            raise SymbolicEscape("number %r read from the file is not a printed tag" % (f,))
+        return cls.registry[k]
+
+    def __float__(self):
+        return self.code
+
+    def __format__(self, spec):
+        return format(self.code, spec)
+
+
+class TagNumpy(shim.SymNumpy):
+    """numpy facade for export/load: sqrt of printable values stays printable; arrays parsed from text map tags back"""
+
+    def sqrt(self, x):
+        r = super().sqrt(x)
+        if isinstance(r, rnp.ndarray) and r.dtype == object:
+            return rnp.array([Tok.of(e) if isinstance(e, SR) else e for e in r.flat], dtype=object).reshape(r.shape)
+        return Tok.of(r) if isinstance(r, SR) else r
+
+    def array(self, a, dtype=None, **k):
+        if dtype in (rnp.float64, float) and isinstance(a, (list, tuple)) and a and all(isinstance(e, str) for e in a):
+            return rnp.array([Tok.back(float(e)) for e in a], dtype=object)
+        return super().array(a, dtype=dtype, **k)
+
+    def fromstring(self, string, dtype=float, sep=""):
+        return rnp.array([Tok.back(float(e)) for e in string.split(sep if sep.strip() else None)], dtype=object)
+
+
+def _rt_blocks(shapes, rng):
+    """blocks with their own x grid (length and values), Q grid and pid list each; every number a fresh symbol"""
+    blocks = []
+    for bi, (nxb, nq, npid) in enumerate(shapes):
+        xs = [SR.var("bx%d_%d" % (bi, i)) for i in range(nxb)]
+        qs = [SR.var("bq%d_%d" % (bi, j)) for j in range(nq)]
+        for v in xs + qs:
+            assume(v, ">0")
+        pids = PIDS if npid == 14 else rng.sample(PIDS, npid)
+        data = symarr("bd%d" % bi, (nxb * nq, len(pids)))
+        blocks.append(dict(xgrid=xs, mu2grid=[q * q for q in qs], pids=list(pids), data=data, _q=qs))
+    return blocks
+
+
+def case_roundtrip(log, shapes, member):
+    import pathlib
+    import shutil
+    import sys
+    import tempfile
+    import types
+
+    export = sym_module("ekobox.genpdf.export", np=TagNumpy())
+    load = sym_module("ekobox.genpdf.load", np=TagNumpy())
+    log.encode(export.dump_blocks, export.list_to_str, export.array_to_str, load.load_blocks_from_file)
+    rk = {"shapes": [list(sh) for sh in shapes], "member": member}
+    seed0 = log.rng.randint(0, 10**9)
+
+    def run():
+        Tok.registry = {}
+        blocks = _rt_blocks(shapes, random.Random(seed0))
+        printable = [dict(xgrid=[Tok.of(x) for x in b["xgrid"]], mu2grid=list(b["mu2grid"]), pids=list(b["pids"]),
+                          data=rnp.array([Tok.of(e) for e in b["data"].flat], dtype=object).reshape(b["data"].shape)) for b in blocks]
+        tmp = pathlib.Path(tempfile.mkdtemp(prefix="c45rt_", dir="/tmp"))
+        fake = types.ModuleType("lhapdf")
+        fake.paths = lambda: [str(tmp)]
+        saved = sys.modules.get("lhapdf")
+        sys.modules["lhapdf"] = fake
+        try:
+            (tmp / "Set").mkdir()
+            export.dump_blocks(str(tmp / "Set"), member, printable)
+            head, got = load.load_blocks_from_file("Set", member)
+        finally:
+            if saved is None:
+                sys.modules.pop("lhapdf", None)
+            else:
+                sys.modules["lhapdf"] = saved
+            shutil.rmtree(tmp, ignore_errors=True)
+        ok = head == ("PdfType: central\n" if member == 0 else "PdfType: replica\n") and len(got) == len(blocks)
+        ok = ok and all(len(g["xgrid"]) == len(b["xgrid"]) and len(g["mu2grid"]) == len(b["mu2grid"]) and [int(p) for p in g["pids"]] == [int(p) for p in b["pids"]]
+                        and tuple(rnp.shape(g["data"])) == tuple(b["data"].shape) for g, b in zip(got, blocks))
+        v = prove_concrete(ok, "re-read member: head line, number of blocks, per block the lengths of its own x and Q grids, its pids and data shape")
+        decide(log, v, key="roundtrip:structure", replay=(MOD, "replay_roundtrip", rk), sampler=_sampler_rt)
+        if not ok:
+            return
+        for bi, (g, b) in enumerate(zip(got, blocks)):
+            for name, diffs in (("x grid", [u - w for u, w in zip(g["xgrid"], b["xgrid"])]), ("Q^2 grid", [u - w for u, w in zip(g["mu2grid"], b["mu2grid"])]),
+                                ("data", [g["data"][i] - b["data"][i] for i in rnp.ndindex(b["data"].shape)])):
+                v = prove_all_zero(diffs, "re-read block %d of %d: %s equals what was written (its own, not another block's)" % (bi + 1, len(blocks), name))
+                decide(log, v, key="roundtrip:%s" % name.split()[0], replay=(MOD, "replay_roundtrip", rk), sampler=_sampler_rt)
+        log.twin("domain")
+        log.collect_ctx()
+
+    _r, pm = explore(run)
+    log.path_stats(pm)
+
+
+def _sampler_rt(rng):
+    return {"seed": Fraction(rng.randint(1, 10**6))}
+
+
+def replay_roundtrip(point, shapes, member):
+    """real dump_blocks + load_blocks_from_file on float blocks, compared at the printed precision"""
+    import pathlib
+    import shutil
+    import sys
+    import tempfile
+    import types
+
+    from ekobox.genpdf import export, load
+
+    rng = rnp.random.default_rng(int(getv(point, "seed", 3)))
+    blocks = []
+    for bi, (nxb, nq, npid) in enumerate(shapes):
+        xs = sorted(getv(point, "bx%d_%d" % (bi, i), float(rng.uniform(1e-3, 1))) for i in range(nxb))
+        qs = sorted(getv(point, "bq%d_%d" % (bi, j), float(rng.uniform(1.5, 100))) for j in range(nq))
+        if any(v <= 0 for v in xs + qs):
+            return None
+        pids = PIDS if npid == 14 else [int(p) for p in rng.permutation(PIDS)[:npid]]
+        data = rng.normal(size=(nxb * nq, len(pids)))
+        blocks.append(dict(xgrid=xs, mu2grid=[q * q for q in qs], pids=pids, data=data))
+    tmp = pathlib.Path(tempfile.mkdtemp(prefix="c45rt_", dir="/tmp"))
+    fake = types.ModuleType("lhapdf")
+    fake.paths = lambda: [str(tmp)]
+    sys.modules["lhapdf"] = fake
+    try:
+        (tmp / "Set").mkdir()
+        export.dump_blocks(str(tmp / "Set"), member, blocks)
+        head, got = load.load_blocks_from_file("Set", member)
+        if head.strip() != ("PdfType: central" if member == 0 else "PdfType: replica") or len(got) != len(blocks):
+            return {"detail": "head %r, %d blocks read, %d written" % (head, len(got), len(blocks))}
+        for bi, (g, b) in enumerate(zip(got, blocks)):
+            for name, u, w, tol in (("x grid", g["xgrid"], b["xgrid"], 1e-6), ("Q^2 grid", g["mu2grid"], b["mu2grid"], 3e-6)):
+                if len(u) != len(w) or any(abs(a - c) > tol * abs(c) for a, c in zip(u, w)):
+                    return {"detail": "block %d of %d: %s read back %r, written %r (x grids of the blocks: %r)" % (bi + 1, len(blocks), name, [float(a) for a in u], w, [b_["xgrid"] for b_ in blocks])}
+            if [int(p) for p in g["pids"]] != b["pids"] or g["data"].shape != b["data"].shape or not rnp.allclose(g["data"], b["data"], rtol=2e-8, atol=1e-12):
+                return {"detail": "block %d of %d: pids/data read back differ from what was written" % (bi + 1, len(blocks))}
+        return None
+    finally:
+        sys.modules.pop("lhapdf", None)
+        shutil.rmtree(tmp, ignore_errors=True)
 
 
 def str_name(sr):
@@ -488,7 +652,7 @@ def _sampler_mu(rng):
     return p
 
 
-def _near_grid_candidates(nfs, alias, target):
+def _near_grid_candidates(nfs, alias, target, nx):
     """candidate points with an explicit target grid at the edge of / inside numpy's allclose tolerance around the operator grid
     (relative 6e-6; small nodes moved by a few 1e-9), and one clearly different grid"""
     if not target:
@@ -499,6 +663,8 @@ def _near_grid_candidates(nfs, alias, target):
                      ([Fraction(1, 10**9), Fraction(1, 10**7), Fraction(1)], [Fraction(6, 10**9), Fraction(108, 10**9), Fraction(1)]),
                      ([Fraction(1, 10), Fraction(1, 2), Fraction(1)], [Fraction(1, 10), Fraction(1, 2) * (1 + Fraction(5, 10**6)), Fraction(1)]),
                      ([Fraction(1, 10), Fraction(1)], [Fraction(1, 5), Fraction(4, 5)])):
+        if len(xs_) != nx or len(ts_) != target:
+            continue
         p = dict(base)
         p.update({"x%d" % i: v for i, v in enumerate(xs_)})
         p.update({"t%d" % i: v for i, v in enumerate(ts_)})
@@ -618,7 +784,14 @@ class _ToyPDF:
         return x ** 0.5 * (1 - x) ** 2 * (1 + 0.1 * abs(pid) + 0.3 * self.k) + 0.01 * self.k
 
 
-def replay_evolve(point, nfs, target, members, what="run", alias=None):
+def _grid_from(point, prefix, n, default):
+    g = [getv(point, "%s%d" % (prefix, i), None) for i in range(n)]
+    if any(v is None for v in g) or not all(0 < a < b for a, b in zip(g, g[1:])) or not (1e-12 < g[0] and g[-1] < 1e3):
+        return list(default)
+    return g
+
+
+def replay_evolve(point, nfs, target, members, what="run", alias=None, nx=2):
     """real evolve_pdfs on a real (synthetic) EKO archive; the written files are parsed back"""
     import os
     import pathlib
@@ -639,14 +812,17 @@ def replay_evolve(point, nfs, target, members, what="run", alias=None):
     cwd = os.getcwd()
     try:
         os.chdir(tmp)
+        xs = _grid_from(point, "x", nx, [0.1, 1.0] if nx == 2 else [0.1, 0.5, 1.0])
+        op.xgrid = interpolation.XGrid(xs)
         eko = EKO.create(tmp / "e.tar").load_cards(th, op).build()
         rng = rnp.random.default_rng(5)
         for ep in op.evolgrid:
-            eko[ep] = Operator(rng.normal(size=(14, 3, 14, 3)))
+            eko[ep] = Operator(rng.normal(size=(14, nx, 14, nx)))
         eko.close()
         tgs = [None]
+        raw = None
         if target:
-            raw = [0.2, 0.8] if target == 2 else [0.2, 0.6, 0.8]
+            raw = _grid_from(point, "t", target, [0.2, 0.8] if target == 2 else [0.2, 0.6, 0.8])
             tgs = [interpolation.XGrid(raw), raw]  # the two documented ways to give a grid: XGrid / list of floats
         pdfs = [_ToyPDF(k) for k in range(members)]
         errors = []
@@ -672,7 +848,10 @@ def replay_evolve(point, nfs, target, members, what="run", alias=None):
             return {"detail": "evolve_pdfs failed: %s" % errors[0]}
         # parse what was written (last successful run)
         info = yaml.safe_load(open(tmp / "Out" / "Out.info").read())
-        wx = list(op.xgrid.raw) if not target else ([0.2, 0.8] if target == 2 else [0.2, 0.6, 0.8])
+        wx = [float(v) for v in op.xgrid.raw] if not target else raw
+        # the info file keeps full precision: its x range must be the one of the requested grid
+        if abs(info["XMin"] - wx[0]) > 1e-13 * wx[0] or abs(info["XMax"] - wx[-1]) > 1e-13 * wx[-1]:
+            return {"detail": "operator x grid %r, %s: info XMin=%r XMax=%r" % (xs, "explicit target grid %r" % (raw,) if target else "no target grid", info["XMin"], info["XMax"])}
         files = sorted((tmp / "Out").glob("Out_*.dat"))
         if info["NumMembers"] != members or len(files) != members:
             return {"detail": "NumMembers=%r, %d member files, %d PDFs" % (info["NumMembers"], len(files), members)}
@@ -692,7 +871,7 @@ def replay_evolve(point, nfs, target, members, what="run", alias=None):
                     allq += bq
                     allx += bx
                     if bp != PIDS or len(bx) != len(wx) or any(abs(a - b_) > 1e-6 * b_ for a, b_ in zip(bx, wx)):
-                        return {"detail": "block nf=%d: x grid %r pids %r, expected grid %r" % (nf, bx, bp, wx)}
+                        return {"detail": "block nf=%d: written x grid %r pids %r, requested grid %r (operator grid %r)" % (nf, bx, bp, wx, xs)}
                     wq = sorted(by_nf[nf])
                     if len(bq) != len(wq) or any(abs(a - b_) > 1e-6 * b_ for a, b_ in zip(bq, wq)):
                         return {"detail": "block nf=%d: Q knots %r, expected %r" % (nf, bq, wq)}
@@ -707,7 +886,7 @@ def replay_evolve(point, nfs, target, members, what="run", alias=None):
                                     return {"detail": "member %d nf=%d x=%r Q=%r pid=%d: written %r, x*applied = %r" % (k, nf, x, q, pid, got, want)}
         if abs(info["QMin"] - min(allq)) > 1e-4 or abs(info["QMax"] - max(allq)) > 1e-4:
             return {"detail": "mugrid %r: info QMin=%r QMax=%r but the written Q knots span [%r, %r]" % (op.mugrid, info["QMin"], info["QMax"], min(allq), max(allq))}
-        if abs(info["XMin"] - min(allx)) > 1e-6 or abs(info["XMax"] - max(allx)) > 1e-6:
+        if abs(info["XMin"] - min(allx)) > 1e-6 * min(allx) or abs(info["XMax"] - max(allx)) > 1e-6 * max(allx):
             return {"detail": "info XMin=%r XMax=%r but the written x grid spans [%r, %r]" % (info["XMin"], info["XMax"], min(allx), max(allx))}
         if sorted(info["Flavors"]) != sorted(PIDS) or info["NumFlavors"] != max(nfs):
             return {"detail": "Flavors %r NumFlavors %r" % (info["Flavors"], info["NumFlavors"])}
@@ -832,6 +1011,13 @@ def main():
     for p, tg, sh, mem, al in ev:
         chk.case("evolve.%s.%s.m%d%s" % ("".join(map(str, p)), "t%d" % tg if tg else "cardgrid", mem, ".shared%s" % "".join("%d%d" % kv for kv in al.items()) if al else ""),
                  case_evolve, nfs=list(p), target=tg, shuffle=sh, members=mem, alias=al)
+    rts = [([(2, 1, 14), (3, 2, 14)], 0), ([(2, 2, 3), (2, 1, 5), (2, 1, 14)], 1), ([(3, 2, 14)], 0)]
+    if thorough:
+        rts += [([(3, 1, 14), (2, 2, 14), (4, 1, 2)], 2), ([(2, 1, 14), (2, 1, 14)], 0)]
+    for sh, mem in rts:
+        chk.case("roundtrip.%s.m%d" % ("_".join("%dx%dx%d" % t for t in sh), mem), case_roundtrip, shapes=sh, member=mem)
+    if thorough:
+        chk.case("evolve.54.t3.m1.nx3", case_evolve, nfs=[5, 4], target=3, shuffle=False, members=1, alias=None, nx=3)
     evm = ["iterate-exact", "truncated", "perturbative-expanded"]
     if thorough:
         evm = ["iterate-exact", "iterate-expanded", "perturbative-exact", "perturbative-expanded", "truncated", "ordered-truncated", "decompose-exact", "decompose-expanded"]
